@@ -184,9 +184,12 @@ func (p *Parser) Error(msg string, token *Token) *Error {
 		// Set current token
 		token = p.Current()
 		if token == nil {
-			// Set to last token
+			// Set to last token (of an argument parser without any token: the
+			// tag's name, which the tag parser left in lastToken for this purpose)
 			if len(p.tokens) > 0 {
 				token = p.tokens[len(p.tokens)-1]
+			} else {
+				token = p.lastToken
 			}
 		}
 	}
